@@ -425,6 +425,6 @@ def nothing_pending(ctx, R="R-C17-save-complete"):
     for attr, (g, node) in sorted(pending.items()):
         ctx.check(attr in read_by_save, R, g, node, "data kept in self.%s by accumulate is taken into account by save" % attr,
                   "accumulate keeps data from the features in self.%s (%s) but save neither reads it nor calls a method that does: statistics saved "
-                  "before it is folded into the matrix lack those vectors, and the reloaded transform differs" % (attr, astq.text(node)[:70]))
+                  "before it is folded into the matrix lack those vectors, and the reloaded transform differs" % (attr, astq.text(node)[:70]), robust=True)
     if not pending:
         ctx.ok(R, acc.loc(), "accumulate keeps data from the features only in the statistics matrix, which is what save writes")
